@@ -423,3 +423,60 @@ func init() {
 			r.Check(fallback, fname(fn), "random fallback over the registry's list", fn.Pos(), "when no active endpoint is selected, a random registry endpoint is tried", "there is no fallback over the registry's endpoint list when nothing is active")
 		}})
 }
+
+func init() {
+	register(&Rule{ID: "C15.R7", Props: []string{"C15"}, Min: 1, Needs: NeedMain,
+		Doc: "one probe per blocked endpoint: every hand-over of an adapter to the probe queue (a send on endpointManager.checkAdapter) is dominated by a failed lookup of that endpoint in checkAdapterList (the set of endpoints already queued) and records the endpoint there — otherwise an endpoint is queued once per status check while nobody calls, and all those probes hit the dead endpoint in a row when traffic resumes",
+		Run: func(r *R) {
+			sp := r.w.Pkg("tars")
+			if sp == nil {
+				r.AnchorMissing("package tars")
+				return
+			}
+			for _, fn := range r.w.Funcs(sp) {
+				eachInstr(fn, func(in ssa.Instruction) {
+					var ch ssa.Value
+					switch x := in.(type) {
+					case *ssa.Send:
+						ch = x.Chan
+					case *ssa.Select:
+						for _, st := range x.States {
+							if st.Dir == types.SendOnly {
+								ch = st.Chan
+							}
+						}
+					}
+					if ch == nil || !strings.HasSuffix(pathOf(ch), ".checkAdapter") {
+						return
+					}
+					absent := false
+					for _, f := range facts(in.Block()) {
+						c, taken := f.Cond, f.Taken
+						for {
+							if u, ok := c.(*ssa.UnOp); ok && u.Op == token.NOT {
+								c, taken = u.X, !taken
+								continue
+							}
+							break
+						}
+						ex, ok := c.(*ssa.Extract)
+						if !ok || ex.Index != 1 || taken {
+							continue
+						}
+						if call, ok := ex.Tuple.(*ssa.Call); ok && funcID(calleeObj(&call.Call)) == "sync.(Map).Load" && strings.HasSuffix(pathOf(call.Call.Args[0]), ".checkAdapterList") {
+							absent = true
+						}
+					}
+					stored := false
+					eachInstr(fn, func(j ssa.Instruction) {
+						if c := callCommon(j); c != nil && funcID(calleeObj(c)) == "sync.(Map).Store" && strings.HasSuffix(pathOf(c.Args[0]), ".checkAdapterList") {
+							if j.Block() == in.Block() || instrDominates(j, in) || instrDominates(in, j) {
+								stored = true
+							}
+						}
+					})
+					r.Check(absent && stored, fname(fn), "probe queued once", in.Pos(), "queued only when not yet in checkAdapterList, and recorded there", "an adapter is handed to the probe queue without the `not yet queued` test on checkAdapterList (test:%v recorded:%v): a blocked endpoint is queued at every status check and then probed many times in a row", absent, stored)
+				})
+			}
+		}})
+}
